@@ -41,6 +41,7 @@ type TreeDriver interface {
 	Dump() (*art.VerifNode, int)
 	LeafRank(n *art.VerifNode) int
 	ValID(v any) int
+	NormVal(v int) int // the id a value made from v maps back to (zero-size types: constant)
 	Tree() any
 	Raw() []RawKey // the raw universe the driver was built from (for re-execution)
 	setRaw([]RawKey)
@@ -181,6 +182,16 @@ func (d *Driver[K, V]) identFromLeaf(n *art.VerifNode) string {
 	}
 	return "b:" + string(key)
 }
+
+// setPassKeyBytes installs how []byte keys are handed to the tree (C13: arenas).
+func (d *Driver[K, V]) setPassKeyBytes(f func([]byte) []byte) {
+	if _, ok := any(d.keys).([][]byte); !ok {
+		panic("kind " + d.name + " has no []byte keys")
+	}
+	d.passKey = func(k K) K { return any(f(any(k).([]byte))).(K) }
+}
+
+func (d *Driver[K, V]) NormVal(v int) int { return d.valID(d.mkVal(v)) }
 
 func (d *Driver[K, V]) ValID(v any) int {
 	vv, ok := v.(V)
